@@ -159,3 +159,119 @@ Definition arom_case (sym : string) (chg : Z) (rad : bool) (e : env) (code : Z) 
                (if has_arom e && negb (e_num el =? 1) then calc_code (Ok (arom_h (e_num el) chg rad e)) =? code else true)
   | None => false
   end.
+
+(* ------------------------------------------------------------------------------------------------
+   4. Standardize.implicify_hydrogens (chython/algorithms/standardize/molecule.py): atoms, bonds and hydrogen counts of the
+      result (calc_labels / fix_stereo afterwards do not touch hydrogen counts)
+   ------------------------------------------------------------------------------------------------ *)
+(* atom == H and (atom.isotope is None or atom.isotope == 1) *)
+Definition plain_h (a : atom) : bool := (a_num a =? 1) && match a_iso a with None => true | Some i => i =? 1 end.
+
+(* explicit[m].append(n) on a defaultdict(list) *)
+Fixpoint lappend (d : list (Z * list Z)) (k v : Z) : list (Z * list Z) :=
+  match d with
+  | [] => [(k, [v])]
+  | (k', l) :: r => if k =? k' then (k', l ++ [v]) :: r else (k', l) :: lappend r k v
+  end.
+
+(* for m, b in bonds[n].items(): single bond to a non-hydrogen -> explicit[m].append(n); order 8 ignored; other orders raise *)
+Fixpoint h_bonds (g : mol) (n : Z) (nb : list (Z * bond)) (ex : list (Z * list Z)) : pyres (list (Z * list Z)) :=
+  match nb with
+  | [] => Ok ex
+  | (m, b) :: r =>
+      if b_ord b =? 1 then
+        match atom_of g m with
+        | None => Err KeyError
+        | Some am => if a_num am =? 1 then h_bonds g n r ex else h_bonds g n r (lappend ex m n)
+        end
+      else if negb (b_ord b =? 8) then Err ValenceError
+      else h_bonds g n r ex
+  end.
+
+Fixpoint collect_explicit (g : mol) (l : list (Z * atom)) (ex : list (Z * list Z)) : pyres (list (Z * list Z)) :=
+  match l with
+  | [] => Ok ex
+  | (n, a) :: r =>
+      if plain_h a then
+        match zget (m_adj g) n with
+        | None => Err KeyError
+        | Some nb =>
+            if 1 <? Z.of_nat (List.length (filter (fun mb => negb (b_ord (snd mb) =? 8)) nb)) then Err ValenceError
+            else match h_bonds g n nb ex with Err e => Err e | Ok ex' => collect_explicit g r ex' end
+        end
+      else collect_explicit g r ex
+  end.
+
+(* the bonds of the atom that stay when the hydrogens hi go: every order counts as written (an aromatic bond as 4) *)
+Fixpoint scan_rest (g : mol) (hi : list Z) (nb : list (Z * bond)) (sum : Z) (d : edict) : pyres (Z * edict) :=
+  match nb with
+  | [] => Ok (sum, d)
+  | (m, b) :: r =>
+      if negb (zmem m hi) && negb (b_ord b =? 8) then
+        match atom_of g m with
+        | None => Err KeyError
+        | Some am => scan_rest g hi r (sum + b_ord b) (eincr d (b_ord b, a_num am))
+        end
+      else scan_rest g hi r sum d
+  end.
+
+(* for s, d, h in rules: if <matches> and h >= i: ...  -- the first rule that has room for the i hydrogens *)
+Fixpoint first_rule_ge (rs : list rule) (d : edict) (i : Z) : option Z :=
+  match rs with
+  | [] => None
+  | r :: rest => if rule_matches r d && (i <=? r_h r) then Some (r_h r) else first_rule_ge rest d i
+  end.
+
+(* for i in range(len_h, 0, -1): try to make the first i hydrogens implicit; a ValenceError of the lookup ends the attempts *)
+Fixpoint try_remove (g : mol) (a : atom) (nb : list (Z * bond)) (hs : list Z) (i : nat) : pyres (option (Z * list Z)) :=
+  match i with
+  | O => Ok None
+  | S i' =>
+      let hi := firstn i hs in
+      match scan_rest g hi nb 0 [] with
+      | Err e => Err e
+      | Ok (sum, d) =>
+          match lookup_rules (rules_of_atom a) (a_chg a) (a_rad a) sum with
+          | Err ValenceError => Ok None
+          | Err e => Err e
+          | Ok rules => match first_rule_ge rules d (Z.of_nat i) with
+                        | Some h => Ok (Some (h, hi))
+                        | None => try_remove g a nb hs i'
+                        end
+          end
+      end
+  end.
+
+(* second loop: (to_remove, fixed) *)
+Fixpoint decide_all (g : mol) (ex : list (Z * list Z)) (rem : list Z) (fixed : list (Z * Z)) : pyres (list Z * list (Z * Z)) :=
+  match ex with
+  | [] => Ok (rem, fixed)
+  | (n, hs) :: r =>
+      match atom_of g n, zget (m_adj g) n with
+      | Some a, Some nb =>
+          match try_remove g a nb hs (List.length hs) with
+          | Err e => Err e
+          | Ok None => decide_all g r rem fixed
+          | Ok (Some (h, hi)) => decide_all g r (rem ++ hi) (fixed ++ [(n, h)])
+          end
+      | _, _ => Err KeyError
+      end
+  end.
+
+Definition implicify (g : mol) : pyres mol :=
+  match collect_explicit g (m_atoms g) [] with
+  | Err e => Err e
+  | Ok ex =>
+      match decide_all g ex [] [] with
+      | Err e => Err e
+      | Ok (rem, fixed) =>
+          Ok (mkMol (map (fun na => match zget fixed (fst na) with
+                                    | Some h => (fst na, mkAtom (a_num (snd na)) (a_iso (snd na)) (a_chg (snd na)) (a_rad (snd na)) (Some h) (a_stereo (snd na)))
+                                    | None => na
+                                    end) (filter (fun na => negb (zmem (fst na) rem)) (m_atoms g)))
+                    (map (fun nl => (fst nl, filter (fun mb => negb (zmem (fst mb) rem)) (snd nl)))
+                         (filter (fun nl => negb (zmem (fst nl) rem)) (m_adj g))))
+      end
+  end.
+
+Definition implicify_case (g : mol) (expected : pyres mol) : bool := pyres_eqb mol_core_eqb (implicify g) expected.
